@@ -44,6 +44,11 @@ inductive MissAction where
   | returnNone
 deriving DecidableEq, Repr
 
+/-- the Python container an order specification with several keys is given in -/
+inductive SeqKind where
+  | list | tuple
+deriving DecidableEq, Repr
+
 /-- the two boolean connectives the n-ary helpers `AND(*ops)` / `OR(*ops)` can build / recurse through -/
 inductive BoolOp where
   | and | or
